@@ -111,6 +111,17 @@ Theorem ctor_breakpoints_cutoff : forall eps r level c k, server_shape c = Some 
   /\ bp_eq (breakpoints e) [(0, toQ level); (toQ r, if (k =? 2)%Z then toQ eps else 0)]
   /\ release e = Some 0%Z /\ loop e = None /\ curves e = [c].
 Proof. exact cutoff_bp. Qed.
+(* ... for EVERY accepted spelling of the curve: any alias of the table or a number, bare or inside a
+   one-element list (only shape number 2, however spelt, selects the -100 dB target) *)
+Theorem ctor_breakpoints_cutoff_spellings : forall eps r level c k, server_shape c = Some k ->
+  forall ca, ca = CScalar c \/ ca = CList [c] ->
+  exists e, env_cutoff_c eps r level ca = Ok e
+  /\ bp_eq (breakpoints e) [(0, toQ level); (toQ r, if (k =? 2)%Z then toQ eps else 0)]
+  /\ release e = Some 0%Z /\ loop e = None /\ curves e = [c].
+Proof. exact cutoff_c_bp. Qed.
+Example ex_cutoff_long_alias : exists e, env_cutoff_c (F (1 # 100000)) (I 1) (I 1) (CScalar (CName "exponential")) = Ok e
+  /\ level_at e 1 == 1 # 100000.
+Proof. eexists. split; [reflexivity|]. reflexivity. Qed.
 (* step: n levels and n times give n flat segments: the levels are preceded by a copy of the first *)
 Theorem ctor_breakpoints_step : forall lv tm rel lp off, lv <> [] -> length lv = length tm ->
   exists e, env_step (Some lv) (Some tm) rel lp off = Ok e
